@@ -7,7 +7,10 @@
 -/
 import NngModel.Proofs.WsConform
 import NngModel.Proofs.WsRules
+import NngModel.Proofs.WsReasm
 import NngModel.Proofs.HttpChunk
+import NngModel.Proofs.HttpChunkSteps
+import NngModel.Proofs.Base64
 import NngModel.Model.Base64
 import NngModel.Spec.Base64
 import NngModel.Spec.HttpChunk
@@ -149,6 +152,35 @@ theorem chunk_data_in_bounds (s : Chunk.St) (c : Chunk.Chunk) (rest : List Chunk
     | c' :: _ => c'.dataR.length + c'.resid = c'.alloc ∧ c'.alloc = c.alloc
     | [] => False := Chunk.ingestData_in_bounds s c rest blk hc hinv
 
+/-- the per-block decoder (with chunk_ingest_data's bulk copy of min(remaining, available) bytes) is the per-byte
+    machine `Chunk.step` folded over the block: same number of bytes consumed, same return value, and the same
+    decoder state unless the result is NNG_EPROTO.  (After a failed CRLF test at the end of a chunk the bulk path has
+    left the rejected chunk untouched while the bytewise path has filled it — in the C code `c_resid` differs in the
+    same way — so the unqualified equation is false: `Chunk.parse_steps_state_differs`, example below.) -/
+theorem chunk_parse_eq_steps (s : Chunk.St) (blk : Bytes) :
+    (Chunk.parse s blk).2 = (Chunk.steps s blk 0).2 ∧
+    ((Chunk.parse s blk).2.2 ≠ Chunk.rvProto → (Chunk.parse s blk).1 = (Chunk.steps s blk 0).1) :=
+  Chunk.parse_agrees_steps s blk
+
+/-- the data fast path: a block that completes the open chunk (CRLF test passed) is that many single steps -/
+theorem chunk_bulk_copy_eq_steps (s : Chunk.St) (c : Chunk.Chunk) (rest : List Chunk.Chunk) (blk : Bytes) (i : Nat)
+    (hs : s.state = .data) (hc : s.chunksR = c :: rest) (hr : c.resid > 0) :
+    (blk.length < c.resid → Chunk.steps s blk i = ((Chunk.ingestData s blk).1, i + blk.length, Chunk.rvAgain)) ∧
+    (blk.length ≥ c.resid → Chunk.crlfOk c ((blk.take c.resid).reverse ++ c.dataR) = true →
+      Chunk.steps s blk i = Chunk.steps (Chunk.ingestData s blk).1 (blk.drop c.resid) (i + c.resid)) := by
+  have h := Chunk.steps_data blk s c rest i hs hc hr
+  constructor
+  · intro hl; rw [h.1 hl, Chunk.ingestData_partial s c rest blk hc hl]
+  · intro hl hk; rw [h.2.1 hl hk, Chunk.ingestData_full s c rest blk hc hl]; simp [hk]
+
+/-- cut independence: handing the decoder a byte stream block by block (while it answers NNG_EAGAIN) gives the
+    result of parsing the concatenation in one call — total bytes consumed, return value, and (unless NNG_EPROTO)
+    the decoder state with all stored chunks -/
+theorem chunk_cut_independent (s : Chunk.St) (blocks : List Bytes) :
+    (Chunk.feed s blocks 0).2 = (Chunk.parse s blocks.flatten).2 ∧
+    ((Chunk.parse s blocks.flatten).2.2 ≠ Chunk.rvProto → (Chunk.feed s blocks 0).1 = (Chunk.parse s blocks.flatten).1) :=
+  Chunk.feed_agrees_parse s blocks
+
 /-! ## base64 -/
 
 set_option maxRecDepth 8192 in
@@ -164,30 +196,85 @@ set_option maxRecDepth 8192 in
     false on a tree without the fix (`decode[(int) in[ii]]` with a signed char reads before the table) -/
 theorem b64_index_in_bounds : Generated.b64IndexUnsigned = true ∧ Generated.b64DecodeTable.length = 256 := by decide
 
-/-! ## statements not yet proved (kept at full strength; evidence for them is the differential run only) -/
+/-! ## byte-level reassembly, base64 round trip -/
 
-/-- reassembly: for every way of cutting a message into fragments, with PING/PONG frames of at most 125
-    bytes interleaved, the receiver delivers exactly the message, once -/
-def rx_reassembles_statement : Prop :=
-  ∀ (cfg : Cfg) (s : St) (pieces : List (List (Bool × Bytes × Bytes) × Bytes × Bytes)),
-    Boundary s → s.closed = false → s.inmsg = false → s.rxq = [] → cfg.isstream = false → pieces ≠ [] →
-    (∀ p ∈ pieces, p.2.1.length = 4 ∧ (cfg.maxframe = 0 ∨ p.2.2.length ≤ cfg.maxframe) ∧ p.2.2.length ≤ cfg.allocLimit ∧
-        ∀ c ∈ p.1, c.2.1.length = 4 ∧ c.2.2.length ≤ 125 ∧ (cfg.maxframe = 0 ∨ c.2.2.length ≤ cfg.maxframe)) →
-    (cfg.recvmax = 0 ∨ ((pieces.map (·.2.2)).flatten.length ≤ cfg.recvmax)) →
+/-- reassembly on the byte stream: a message cut into any number of fragments (`pieces`, BINARY then CONT,
+    FIN on the last), with any PING/PONG frames of at most 125 bytes before each fragment, encoded by the peer
+    role and delivered to the receiver machine in ANY segmentation (`blocks`), followed by any further bytes
+    `more`: the receiver answers every PING with the PONG `ws_send_control` builds (`pongRun`, in order; see
+    `pongs_echo`), then delivers exactly the concatenation of the fragments, once, and is back at a frame
+    boundary with no message open (only the random state moved), ready for `more`.
+    Acceptance hypotheses, all necessary: every frame within `maxframe`, data payloads within the allocation
+    limit and below 2^64 (the 64-bit length field), the message within `recvmax`
+    (control frames are not counted: `recvmax_ignores_control_frames`). -/
+theorem rx_reassembles (cfg : Cfg) (s : St) (pieces : List (List (Bool × Bytes × Bytes) × Bytes × Bytes)) (more : Bytes)
+    (hb : Boundary s) (hc : s.closed = false) (him : s.inmsg = false) (hq : s.rxq = []) (hst : cfg.isstream = false)
+    (hne : pieces ≠ [])
+    (hok : ∀ p ∈ pieces, p.2.1.length = 4 ∧ (cfg.maxframe = 0 ∨ p.2.2.length ≤ cfg.maxframe) ∧ p.2.2.length ≤ cfg.allocLimit ∧
+        p.2.2.length < 2 ^ 64 ∧
+        ∀ c ∈ p.1, c.2.1.length = 4 ∧ c.2.2.length ≤ 125 ∧ (cfg.maxframe = 0 ∨ c.2.2.length ≤ cfg.maxframe))
+    (hmax : cfg.recvmax = 0 ∨ ((pieces.map (·.2.2)).flatten.length ≤ cfg.recvmax)) :
     let n := pieces.length
     let wire := (pieces.zipIdx.map fun (p, i) =>
       (p.1.map fun c => encode (!cfg.server) c.2.1 (if c.1 then opPing else opPong) true c.2.2).flatten ++
         encode (!cfg.server) p.2.1 (if i = 0 then opBinary else opCont) (decide (i + 1 = n)) p.2.2).flatten
-    ((rx cfg s wire).2.filterMap fun e => match e with | .msg b => some b | _ => none) = [(pieces.map (·.2.2)).flatten]
+    let pongs := pongRun cfg.server s.rng (pieces.flatMap (·.1))
+    let s' : St := { s with rng := pongs.2 }
+    ∀ blocks : List Bytes, blocks.flatten = wire ++ more →
+      blocks.foldl (fun acc b => ((rx cfg acc.1 b).1, acc.2 ++ (rx cfg acc.1 b).2)) (s, []) =
+        ((rx cfg s' more).1, pongs.1.map Ev.tx ++ Ev.msg (pieces.map (·.2.2)).flatten :: (rx cfg s' more).2) := by
+  intro n wire pongs s' blocks hbl
+  rw [rx_blocks, hbl]
+  have hw : wire = wireFrom (!cfg.server) n 0 pieces := rfl
+  have hmax' : cfg.recvmax = 0 ∨ (([] : List Bytes).map List.length).sum + ((pieces.map (·.2.2)).map List.length).sum ≤ cfg.recvmax := by
+    rcases hmax with h | h
+    · exact Or.inl h
+    · right; rw [List.length_flatten] at h; simpa using h
+  have h := rx_pieces cfg hst s.peerClosed n more pieces 0 [] s.rng hne (by simp [n]) (fun _ => rfl) hok hmax'
+  rw [hw, eq_bd s hb hc him hq]
+  simp only [ne_eq, not_true_eq_false, decide_false, List.nil_append] at h
+  rw [h, bd_rng s hb hc him hq]
 
-/-- the per-block decoder is the per-byte machine folded over the block, hence cut independent -/
-def chunk_parse_eq_steps_statement : Prop :=
-  ∀ (s : Chunk.St) (blk : Bytes), Chunk.parse s blk = Chunk.steps s blk 0
+/-- the whole event list when nothing follows: the PONGs, then the message, nothing else -/
+theorem rx_reassembles_events (cfg : Cfg) (s : St) (pieces : List (List (Bool × Bytes × Bytes) × Bytes × Bytes))
+    (hb : Boundary s) (hc : s.closed = false) (him : s.inmsg = false) (hq : s.rxq = []) (hst : cfg.isstream = false)
+    (hne : pieces ≠ [])
+    (hok : ∀ p ∈ pieces, p.2.1.length = 4 ∧ (cfg.maxframe = 0 ∨ p.2.2.length ≤ cfg.maxframe) ∧ p.2.2.length ≤ cfg.allocLimit ∧
+        p.2.2.length < 2 ^ 64 ∧
+        ∀ c ∈ p.1, c.2.1.length = 4 ∧ c.2.2.length ≤ 125 ∧ (cfg.maxframe = 0 ∨ c.2.2.length ≤ cfg.maxframe))
+    (hmax : cfg.recvmax = 0 ∨ ((pieces.map (·.2.2)).flatten.length ≤ cfg.recvmax)) :
+    let n := pieces.length
+    let wire := (pieces.zipIdx.map fun (p, i) =>
+      (p.1.map fun c => encode (!cfg.server) c.2.1 (if c.1 then opPing else opPong) true c.2.2).flatten ++
+        encode (!cfg.server) p.2.1 (if i = 0 then opBinary else opCont) (decide (i + 1 = n)) p.2.2).flatten
+    (rx cfg s wire).2 = (pongRun cfg.server s.rng (pieces.flatMap (·.1))).1.map Ev.tx ++ [Ev.msg (pieces.map (·.2.2)).flatten] ∧
+    ((rx cfg s wire).2.filterMap fun e => match e with | .msg b => some b | _ => none) = [(pieces.map (·.2.2)).flatten] := by
+  intro n wire
+  have h := rx_reassembles cfg s pieces [] hb hc him hq hst hne hok hmax [wire] (by simp [wire, n])
+  simp only [List.foldl_cons, List.foldl_nil, List.nil_append, rx] at h
+  have h2 := congrArg Prod.snd h
+  simp only [] at h2
+  refine ⟨h2, ?_⟩
+  rw [h2, List.filterMap_append]
+  have : ∀ l : List Bytes, (l.map Ev.tx).filterMap (fun e => match e with | .msg b => some b | _ => none) = [] := by
+    intro l; induction l with
+    | nil => rfl
+    | cons x xs ih => simp
+  rw [this]; rfl
 
-/-- base64 round trip through the code's accumulator loops -/
-def base64_roundtrip_statement : Prop :=
-  ∀ (b : Bytes) (n m : Nat), n > (b.length + 2) / 3 * 4 → m ≥ b.length → b.length < 2 ^ 30 →
-    ∃ e, Base64.encode b n = some e ∧ e = Base64Spec.encode b ∧ Base64.decode e m = some b
+/-- each PONG is a conforming frame of the receiver's role echoing the PING's payload -/
+theorem pongs_echo (server : Bool) (rng : Nat) (payload : Bytes) (h : payload.length ≤ 125) :
+    WsSpec.conforming (!server) (pongOf server rng payload).1 = true ∧
+    ∃ f, WsSpec.parseFrame (pongOf server rng payload).1 = some (f, []) ∧ f.opcode = 10 ∧ f.fin = true ∧ f.payload = payload :=
+  pongOf_echo server rng payload h
+
+/-- base64 round trip through the code's accumulator loops (uint32 accumulator, room test before every store,
+    flush of the partial sextet, `=` padding): with room for the encoding and one more byte, nni_base64_encode
+    produces exactly RFC 4648's encoding (3-byte groups → 4 symbols, 1 or 2 trailing bytes padded), and
+    nni_base64_decode of that, with room for the original, gives the original back.  Every byte list, any length. -/
+theorem base64_roundtrip (b : Bytes) (n m : Nat) (hn : n > (b.length + 2) / 3 * 4) (hm : m ≥ b.length) :
+    ∃ e, Base64.encode b n = some e ∧ e = Base64Spec.encode b ∧ Base64.decode e m = some b :=
+  ⟨Base64Spec.encode b, Base64.encode_spec b n hn, rfl, Base64.decode_encode b m hm⟩
 
 /-! ## non-vacuity: concrete, non-trivial instances -/
 
@@ -198,6 +285,18 @@ example :
     let k : Bytes := [1, 2, 3, 4]
     let wire := encode false k opBinary false [104, 105] ++ encode false k opPing true [7] ++ encode false k opCont true [33]
     ((rx exCfg {} wire).2.filterMap fun e => match e with | .msg b => some b | _ => none) = [[104, 105, 33]] := by decide
+
+/-- the hypotheses of `rx_reassembles` are satisfiable with both limits in force and met exactly (frames of at most
+    2 bytes, a 3-byte message): two fragments, a PING before the first and a PONG before the second -/
+def exCfgTight : Cfg := { server := true, maxframe := 2, recvmax := 3 }
+def exPieces : List (List (Bool × Bytes × Bytes) × Bytes × Bytes) :=
+  [([(true, [1, 2, 3, 4], [7])], [1, 2, 3, 4], [104, 105]), ([(false, [5, 6, 7, 8], [])], [9, 9, 9, 9], [33])]
+example :
+    let wire := (exPieces.zipIdx.map fun (p, i) =>
+      (p.1.map fun c => encode (!exCfgTight.server) c.2.1 (if c.1 then opPing else opPong) true c.2.2).flatten ++
+        encode (!exCfgTight.server) p.2.1 (if i = 0 then opBinary else opCont) (decide (i + 1 = exPieces.length)) p.2.2).flatten
+    ((rx exCfgTight {} wire).2.filterMap fun e => match e with | .msg b => some b | _ => none) = [[104, 105, 33]] :=
+  (rx_reassembles_events exCfgTight {} exPieces ⟨rfl, rfl, rfl, rfl⟩ rfl rfl rfl rfl (by decide) (by decide) (by decide)).2
 
 /-- `Boundary` and `HdrViolation` are satisfiable: an unmasked frame toward a server -/
 example : Boundary ({} : St) := ⟨rfl, rfl, rfl, rfl⟩
@@ -210,7 +309,18 @@ example : (sendMsg exCfg 0 [104, 101, 108, 108, 111]).frames.length = 3 := by de
 
 example : (Chunk.parse { maxsz := 0 } [51, 13, 10, 97, 98, 99, 13, 10, 48, 13, 10, 13, 10]).2 = (13, 0) := by decide
 example : Chunk.body (Chunk.parse { maxsz := 0 } [51, 13, 10, 97, 98, 99, 13, 10, 48, 13, 10, 13, 10]).1 = [97, 98, 99] := by decide
+/-- why `chunk_parse_eq_steps` is qualified: a 1-byte chunk whose CRLF is wrong, fed at once and bytewise -/
+example :
+    let s : Chunk.St := { maxsz := 0, state := .data, chunksR := [{ size := 1, alloc := 3, resid := 3 }] }
+    (Chunk.parse s [1, 2, 3]).2.2 = Chunk.rvProto ∧
+    (Chunk.parse s [1, 2, 3]).1.chunksR.map (·.resid) = [3] ∧ (Chunk.steps s [1, 2, 3] 0).1.chunksR.map (·.resid) = [1] := by
+  decide
+/-- blocks cut inside the size line, inside the data and inside the CRLF -/
+example : (Chunk.feed { maxsz := 0 } [[51], [13, 10, 97], [98, 99, 13], [10, 48, 13, 10, 13], [10]] 0).2 = (13, 0) := by decide
 example : Base64.encode [77, 97, 110] 5 = some [84, 87, 70, 117] := by decide
 example : Base64.decode [84, 87, 70, 117] 3 = some [77, 97, 110] := by decide
+/-- both padding cases of the round trip -/
+example : Base64.encode [77] 5 = some [84, 81, 61, 61] ∧ Base64.decode [84, 81, 61, 61] 1 = some [77] := by decide
+example : Base64.encode [77, 97] 5 = some [84, 87, 69, 61] ∧ Base64.decode [84, 87, 69, 61] 2 = some [77, 97] := by decide
 
 end Nng.C16
